@@ -600,7 +600,7 @@ func ruleG3(c *Ctx) {
 	cpu := m.structOf(pkgAPI, "LinuxCPU")
 	for i := 0; i < cpu.NumFields(); i++ {
 		if cpu.Field(i).Exported() {
-			reqs = append(reqs, req{"AdjustResources", "Cpu." + cpu.Field(i).Name(), ""})
+			reqs = append(reqs, req{"AdjustResources", "Cpu." + fname(cpu.Field(i)), ""})
 		}
 	}
 	reqs = append(reqs,
@@ -623,7 +623,7 @@ func ruleG3(c *Ctx) {
 	hooks := m.structOf(pkgAPI, "Hooks")
 	for i := 0; i < hooks.NumFields(); i++ {
 		if hooks.Field(i).Exported() {
-			reqs = append(reqs, req{"AdjustHooks", hooks.Field(i).Name() + ".[]", hooks.Field(i).Name()})
+			reqs = append(reqs, req{"AdjustHooks", fname(hooks.Field(i)) + ".[]", fname(hooks.Field(i))})
 		}
 	}
 	cache := map[string]map[string][]fedInfo{}
@@ -734,7 +734,7 @@ func ruleG4(c *Ctx) {
 	for _, ci := range calls(sortM) {
 		if g := m.callee(ci.Common()); g != nil && (g.String() == "sort.Sort" || g.String() == "sort.Stable") {
 			if mi, ok := ci.Common().Args[0].(*ssa.MakeInterface); ok {
-				if n, ok := types.Unalias(mi.X.Type()).(*types.Named); ok && n.Obj().Name() == "orderedMounts" {
+				if n, ok := types.Unalias(mi.X.Type()).(*types.Named); ok && tname(n.Obj()) == "orderedMounts" {
 					okSort = true
 				}
 			}
